@@ -39,6 +39,8 @@ RULE = (
     'Non-trivial: a cut falls inside a length prefix or inside the final '
     'handshake packet, or connections are interleaved mid-frame. Distinct = '
     'SHA-1 of the case JSON.'
+    ' The receive part also feeds Connector.__do (the database client) its '
+    'reply in the generated piece sizes. '
 )
 ASSUMPTIONS = [
     'Twisted transport contract: after loseConnection() no further bytes are '
